@@ -6,7 +6,7 @@ COMMON_TRUSTED = [
     "Lean compiler/runtime for the executable instantiations of the models (Float, Float32, Rat, UInt64, List, String)",
 ]
 
-HOOK_COMMITS = ["f19adfe", "71427de", "9be2068", "df621b3", "8e0d3b7"]
+HOOK_COMMITS = ["f19adfe", "71427de", "9be2068", "df621b3", "8e0d3b7", "51d7784"]
 
 NOT_APPLICABLE = {
     "C06": "end-to-end statistical convergence claim about the empirical law of rand/rand_distr streams: no executable model tied to the code by a "
@@ -37,7 +37,26 @@ DI = "MiniMcmcVerif.Dist."
 
 HM = "MiniMcmcVerif.HMC."
 
+DA = "MiniMcmcVerif.DualAvg."
+
 PROPS = {
+    "C04": {
+        "obligations": [DA + n for n in ["adaptStep_counters", "eps_pos_step", "eps_pos", "eps_frozen_step", "eps_frozen", "second_run_no_adapt", "hbar_step",
+                                         "hbar_closed_form", "hbar_bounded", "log_eps_dual_avg", "initChain_spec"]],
+        "rel32": 2e-3, "abs32": 1e-4, "rel64": 1e-6, "abs64": 1e-9,
+        "timeout": 3000,
+        "level_text": "Theorems over R, for every history of acceptance statistics: the step size and the averaged iterate are positive after every transition; once the transition number exceeds n_discard the step size equals the "
+                      "averaged iterate and neither changes for the rest of the run; a later run whose warm-up length does not exceed the persistent counter never adapts; (m+t0)*H_bar grows by exactly delta - a per transition "
+                      "(closed form of Nesterov's averaged deficit) and stays within [delta-1, delta] for statistics in [0,1]; in warm-up ln eps = mu - sqrt(m)/gamma * H_bar and ln eps_bar is the m^-kappa-weighted average; init_chain keeps m, H_bar, "
+                      "eps_bar and sets mu = ln(10 eps). Tied to nuts.rs by stepping real chains through 1-3 consecutive runs, reading (m, eps, eps_bar, H_bar, mu) after every transition (hook accessor) and the transition's "
+                      "alpha/n_alpha (hook trace), and replaying the model at Float; find_reasonable_epsilon is replayed as well; freezing / positivity are also checked on the implementation bit for bit.",
+        "level_note": "Partial: 'finite' in f32/f64 is observed on traces, not proved for all targets; 'realised acceptance close to the requested one' is statistical — not decided. Observation (not a property violation): "
+                      "resuming dual averaging after a run that froze a far too large step size can collapse eps to ~1e-12, which makes the un-capped tree doubling astronomically deep; such histories are cut (counted).",
+        "rule": "chains on 2-D Gaussians, random SPD Gaussians (dim 1-6), Student-t, Rosenbrock; delta uniform in (0.5,0.99); histories of 1-3 runs with warm-up 0, 1-5 or 5-60 (thorough 5-400) and 2-25 collected; f32 and f64; "
+                "distinct by (type, target, c, d, run index, seed)",
+        "trusted": ["libm exp/ln/sqrt/powf; rounding not modelled (tolerances 2e-3 f32 / 1e-6 f64)", "hook accessor verif_adapt_state returns the private fields"],
+        "assumptions": [],
+    },
     "C02": {
         "obligations": [HM + n for n in ["iter_eq", "leapBody_eq_verlet", "leapfrogCode_eq_verlet", "hmc_step_result", "hmc_step_ignores_carried", "hmc_rows_independent",
                                          "hmc_step_summand", "verlet_flip_verlet", "verlet_reversible"]],
